@@ -58,17 +58,25 @@ def Fields.Valid (f : Fields) : Prop :=
 
 instance (f : Fields) : Decidable f.Valid := by unfold Fields.Valid; exact inferInstance
 
+/-- first day (within a 400-year era starting 1 March) of the March-based year `y` of the era -/
+def yearStart (y : Nat) : Nat := 365 * y + y / 4 - y / 100
+
+/-- March-based year of the era containing day-of-era `doe < 146097`: estimate `doe / 366`
+(never too large, at most one too small) and correct -/
+def yearOfEra (doe : Nat) : Nat :=
+  let y1 := doe / 366
+  if yearStart (y1 + 1) ≤ doe ∧ y1 < 399 then y1 + 1 else y1
+
 /-- (year, month, day) of day number `z` counted from 0000-03-01 -/
 def civilOfDays (z : Nat) : Nat × Nat × Nat :=
   let era := z / 146097
   let doe := z % 146097
-  let yoe := (doe - doe / 1460 + doe / 36524 - doe / 146096) / 365
-  let y := yoe + era * 400
-  let doy := doe - (365 * yoe + yoe / 4 - yoe / 100)
+  let yoe := yearOfEra doe
+  let doy := doe - yearStart yoe
   let mp := (5 * doy + 2) / 153
   let d := doy - (153 * mp + 2) / 5 + 1
   let m := if mp < 10 then mp + 3 else mp - 9
-  (if m ≤ 2 then y + 1 else y, m, d)
+  (if m ≤ 2 then yoe + era * 400 + 1 else yoe + era * 400, m, d)
 
 /-- day number (from 0000-03-01) of a civil date with `year ≥ 1` -/
 def daysOfCivil (y m d : Nat) : Nat :=
